@@ -11,10 +11,10 @@ LEVEL = "exploration"
 BUDGET = {"quick": 1920, "thorough": 250000}
 TECHNIQUE = "property-based testing: constructed interior cell centres, stored value from the generator's payload as the oracle"
 RULE = ("Hypothesis-generated nested 3D plotfiles (non-zero origin incl. a quarter placed 1e3-3e5 domain lengths away, anisotropic cells, 1-3 levels, any layout, finite "
-        "random payload |v| <= 1e3) x ~10 query points per plotfile constructed as centres of cells that belong to the "
+        "random payload, per-field magnitudes 1e-3..1e4 or, in half the cases, 1e-12..1e9 in one box) x ~10 query points per plotfile constructed as centres of cells that belong to the "
         "finest selected level covering them and lie >= 1 cell inside their box, x field selection (name, index, "
         "ascending name / index list; permuted and negative index lists under the either-rule: refused or right) x reader level limit; plus points outside the domain (a hair 1e-9 L / 1% / 50 L below or above, one "
-        "coordinate at a time); in half the cases one selection object answers all points of the case. Interior: every selected field's value within 1e-8*(1+max|box|) of the stored cell; "
+        "coordinate at a time); in half the cases one selection object answers all points of the case. Interior: every selected field's value within 1e-8*max|that field in the box| of the stored cell; "
         "outside: an exception. Non-trivial = origin != 0 or anisotropic or a point on level >= 1.")
 ASSUMPTIONS = ["cubic-spline evaluation at an integer node reproduces the node value to rounding (tolerance 1e-8 relative to the box)"]
 
@@ -33,6 +33,8 @@ def cases(draw, tier="quick"):
         for d in dims:
             spec["geom"]["origin"][d] = far * spec["geom"]["lengths"][d]
         spec["far"] = far
+    if draw(st.booleans()):
+        spec["payload"]["wide"] = True
     pts = []
     for _ in range(draw(st.integers(6, 12))):
         kind = draw(st.sampled_from(["in", "in", "in", "in", "out"]))
@@ -188,14 +190,27 @@ def check_case(case, ctx):
         xyz = [plot.geo_lo[d] + (cell[d] + 0.5) * plot.dx[lv][d] for d in range(3)]
         data = plot.box_data(lv, b)
         stored = data[cell[0] - lo[0], cell[1] - lo[1], cell[2] - lo[2], fi]
-        big = float(np.max(np.abs(data[..., fi])))
+        # per selected field, relative to that field's own magnitude in the box (fields may be many decades apart)
+        big = np.array([float(np.max(np.abs(data[..., f]))) for f in fi])
         # a far-placed cell centre is representable only to a few ulp of |x|: that position error (in cells) times the
         # largest slope of the interpolant is added to the node-reproduction tolerance
         poserr = max(8 * np.finfo(float).eps * abs(xyz[d]) / plot.dx[lv][d] for d in range(3))
-        tol = 1e-8 * (1.0 + big) + poserr * 6.0 * big
+        tol = 1e-8 * big + poserr * 6.0 * big + 1e-300
         ctx.label(f"point:level{lv}", "fsel:" + pt["fsel"])
         if lv >= 1 or "origin!=0" in labs or "anisotropic" in labs or case["spec"].get("far"):
             ctx.nontrivial()
+        if reuse and pi % 3 == 1:
+            # history: a transient read failure at this very point (the level's directory is away for a moment); the
+            # retry below, through the same selection object, must still return the stored value
+            ctx.label("history:failed-read-then-retry")
+            ldir = os.path.join("src", plot.level_dir(1 if (ratio4 and lv == 2) else lv))
+            os.rename(ldir, ldir + ".away")
+            try:
+                qcall(lambda: query(fobj, xyz))
+            except Exception:
+                pass
+            finally:
+                os.rename(ldir + ".away", ldir)
         try:
             got = qcall(lambda: query(fobj, xyz))
         except Exception as e:
